@@ -18,8 +18,8 @@ EXPORT = [
         (("name",), [(2, ("inst_name",))], []),
         (("cell",), [(2, ("cell",))], []),
         (("reflect_vert",), [(2, ("reflect_vert",))], []),
-        (("origin_location", "x"), [(2, ("loc", "x"))], [(2, ("loc", "y"))]),
-        (("origin_location", "y"), [(2, ("loc", "y"))], [(2, ("loc", "x"))]),
+        (("origin_location", "x"), [(2, ("loc", "x"))], [(2, ("loc", "y")), (2, ("cell",)), (2, ("reflect_vert",)), (2, ("angle",))]),
+        (("origin_location", "y"), [(2, ("loc", "y"))], [(2, ("loc", "x")), (2, ("cell",)), (2, ("reflect_vert",)), (2, ("angle",))]),
         (("rotation_clockwise_degrees",), [(2, ("angle",))], []),
     ]),
     ("rect", [EXP, r"^&geom::Rect$"], r"Result<layout21protos::Rectangle,", [
@@ -53,8 +53,8 @@ IMPORT = [
         (("inst_name",), [(2, ("name",))], []),
         (("cell",), [(2, ("cell",))], []),
         (("reflect_vert",), [(2, ("reflect_vert",))], []),
-        (("loc", "x"), [(2, ("origin_location", "x"))], [(2, ("origin_location", "y"))]),
-        (("loc", "y"), [(2, ("origin_location", "y"))], [(2, ("origin_location", "x"))]),
+        (("loc", "x"), [(2, ("origin_location", "x"))], [(2, ("origin_location", "y")), (2, ("cell",)), (2, ("reflect_vertically",)), (2, ("rotation_clockwise_degrees",))]),
+        (("loc", "y"), [(2, ("origin_location", "y"))], [(2, ("origin_location", "x")), (2, ("cell",)), (2, ("reflect_vertically",)), (2, ("rotation_clockwise_degrees",))]),
         (("angle",), [(2, ("rotation_clockwise_degrees",))], []),
     ]),
     ("rect", [IMP, r"^&layout21protos::Rectangle$"], r"Result<geom::Shape,", [
